@@ -79,6 +79,9 @@ pub(crate) struct Circuit {
     call_records: VecDeque<CallRecord>,
     /// Trial calls admitted in half-open whose outcome has not been recorded yet.
     half_open_in_flight: std::sync::Arc<AtomicUsize>,
+    /// Successful trial calls recorded in the current half-open period. Kept apart from
+    /// the sliding window: time-based records expire, trial outcomes must not.
+    half_open_successes: usize,
 }
 
 /// Occupies one of the `permitted_calls_in_half_open` trial slots until it is dropped:
@@ -117,6 +120,7 @@ impl Circuit {
             count_window: VecDeque::new(),
             call_records: VecDeque::new(),
             half_open_in_flight: std::sync::Arc::new(AtomicUsize::new(0)),
+            half_open_successes: 0,
         }
     }
 
@@ -303,11 +307,8 @@ impl Circuit {
 
         match self.state {
             CircuitState::HalfOpen => {
-                let success_count = match config.sliding_window_type {
-                    SlidingWindowType::CountBased => self.success_count,
-                    SlidingWindowType::TimeBased => self.time_based_stats().2,
-                };
-                if success_count >= config.permitted_calls_in_half_open {
+                self.half_open_successes += 1;
+                if self.half_open_successes >= config.permitted_calls_in_half_open {
                     self.transition_to(CircuitState::Closed, config);
                 }
             }
@@ -425,11 +426,9 @@ impl Circuit {
                 }
             }
             CircuitState::HalfOpen => {
-                // Trial calls that completed plus those still in flight
-                let completed = match config.sliding_window_type {
-                    SlidingWindowType::CountBased => self.success_count + self.failure_count,
-                    SlidingWindowType::TimeBased => self.call_records.len(),
-                };
+                // Trial calls that completed plus those still in flight. (A failed trial
+                // re-opens the circuit at once, so the completed ones are the successes.)
+                let completed = self.half_open_successes;
                 let in_flight = self.half_open_in_flight.load(Ordering::Acquire);
                 let permitted = completed + in_flight < config.permitted_calls_in_half_open;
                 if permitted {
@@ -531,6 +530,7 @@ impl Circuit {
         self.slow_call_count = 0;
         self.count_window.clear();
         self.call_records.clear();
+        self.half_open_successes = 0;
     }
 
     fn evaluate_window<C>(&mut self, config: &CircuitBreakerConfig<C>) {
